@@ -136,6 +136,13 @@ def worker(idx, nworkers, tier, seed, extra):
         mon.inconc("the GMP executor is not built")
         return mon
     scale = {"quick": 1, "thorough": 100}[tier]
+    if not randomness_alignable():
+        # the two executors cannot be made to draw the same values (the library takes its randomness from a source the
+        # interposed generator does not see, or maps draws to keys differently): an event-by-event comparison would only
+        # compare noise. Fall back to: each back end against the independent model (agreement with the model implies agreement).
+        mon.inconc("randomness of the two executors cannot be aligned by injection; differential run replaced by model-peer sessions on "
+                   "the GMP executor (C03/C14 workloads), randomness-dependent events are not compared")
+        return fallback_rug_vs_model(mon, rnd, idx, nworkers, scale)
     w = DualWsx(mon, rnd)
     try:
         # process history: three of four executors see a client session with another announced modulus before
@@ -265,6 +272,64 @@ def worker(idx, nworkers, tier, seed, extra):
         w.close()
     mon.count("dual_calls", w.calls)
     mon.sample({"workload_kinds": sorted({c[0] for c in mon.cells})}, cap=1)
+    return mon
+
+
+def randomness_alignable():
+    """True if a scripted chunk determines salt, b, a, the reconnect challenges on both executors."""
+    from wsx import Wsx
+    ok = True
+    for binary in (WSX, WSX_RUG):
+        w = Wsx(binary)
+        try:
+            chunk = bytes(range(1, 33))
+            w.script([chunk])
+            v = w.call("ver_new", into=1, u="PROBE", p="PROBE")
+            if not v.ok or v.b("salt") != chunk:
+                ok = False
+            w.script([M.to_le(5)])
+            p = w.call("ver_proof", h=1, into=2)
+            if not p.ok or M.to_le(M.calc_B(M.le(v.b("v")), 5)) != p.b("B"):
+                ok = False
+            w.script([M.to_le(9)])
+            c = w.call("cli_new", into=3, u="PROBE", p="PROBE", g=7, N=M.N_LE, B=p.b("B"), salt=v.b("salt"))
+            if not c.ok or c.b("A") != M.to_le(M.calc_A(9)):
+                ok = False
+            if c.ok:
+                w.script([bytes(range(40, 56))])
+                s = w.call("proof_server", h=2, into=4, A=c.b("A"), M1=c.b("M1"))
+                if not s.ok or s.b("chal") != bytes(range(40, 56)):
+                    ok = False
+        except Exception:
+            ok = False
+        finally:
+            w.close()
+    return ok
+
+
+def fallback_rug_vs_model(mon, rnd, idx, nworkers, scale):
+    from wsx import Wsx
+    w = Wsx(WSX_RUG)
+    inner = Monitor()
+    try:
+        for i in range(60 * scale):
+            user, pw = c01.rand_cred(rnd), c01.rand_cred(rnd)
+            c03.lm_session(w, {"user": user, "pw": pw, "salt": None, "b": None, "a": c03.rb(rnd, 32).hex(), "vmode": "register"}, inner)
+            c03.ml_session(w, {"user": user, "pw": pw, "cuser": user, "cpw": pw, "salt": c03.rb(rnd, 32).hex(), "g": rnd.choice([7, 2, 200]),
+                               "n": rnd.choice([c03.N_HEX, M.to_le(c03.random_prime(rnd, rnd.choice([16, 64, 255]))).hex()]),
+                               "b": c03.rb(rnd, 32).hex(), "a": None, "Bmode": "honest"}, inner)
+        c14.server_hostile(w, rnd, inner, False)
+        c14.client_hostile(w, rnd, inner, False)
+    except ExecutorDied as e:
+        mon.violation("c19:executor_died:rug", "GMP executor died", {"engine": "wsx", "kind": "raw", "commands": e.last_cmds})
+    finally:
+        w.close()
+    mon.ev(inner.evals)
+    for c in inner.cells:
+        mon.cell(("rug_vs_model",) + tuple(c))
+    for v in inner.violations:
+        mon.violation("c19:rug_vs_model:" + v["sig"], "GMP back end differs from the model (num-bigint agrees with it in C03/C14): " + v["what"], v["replay"])
+    mon.count("rug_vs_model_sessions", inner.evals)
     return mon
 
 
